@@ -331,3 +331,34 @@ def run(repo: Repo, rep: Report, tier: str) -> None:
         # the handler's variable is not modified between unpacking and encoding (cast / None-reset only)
         muts = [s for s in walk_no_nested(fn) if isinstance(s, ast.Assign) and norm(s.targets[0]) == dsv and s is not unpack[0] and not (isinstance(s.value, ast.Constant) and s.value.value is None) and norm(strip_cast(s.value)) != dsv]
         rep.check(not muts, "data-flow", fq, muts[0] if muts else f"{dsv} only bound from the handler result", "the handler's data set is replaced before it is encoded", mod=sc, node=muts[0] if muts else fn)
+    check_handler_dataset_replacement(repo, rep)
+
+
+def check_handler_dataset_replacement(repo: Repo, rep: Report) -> None:
+    """C-GET / C-MOVE: the Identifier a handler yields with a Cancel / Failure / Warning status reaches
+    the requestor; the SCP may substitute its own only when the handler supplied none."""
+    sc = repo.mod("service_class")
+    n = 0
+    for q in ("QueryRetrieveServiceClass._get_scp", "QueryRetrieveServiceClass._move_scp"):
+        fn = repo.func("service_class", q)
+        fq = f"service_class.{q}"
+        unpack = [s for s in walk_no_nested(fn) if isinstance(s, ast.Assign) and isinstance(s.targets[0], ast.Tuple) and len(s.targets[0].elts) == 2 and norm(strip_cast(s.value)) == "result"]
+        rep.need(len(unpack) == 1, f"{fq}: handler result unpacking not found")
+        dsv = norm(unpack[0].targets[0].elts[1])
+        loop = enclosing(unpack[0], (ast.For,))
+        rep.need(loop is not None, f"{fq}: result loop not found")
+        for s in [x for b in loop.body for x in ast.walk(b) if isinstance(x, ast.Assign)]:
+            if norm(s.targets[0]) != dsv or s is unpack[0]:
+                continue
+            v = strip_cast(s.value)
+            if (isinstance(v, ast.Constant) and v.value is None) or norm(v) == dsv:
+                continue
+            n += 1
+            g = enclosing(s, (ast.If,))
+            ok = g is not None and any(x is s for x in g.body)
+            disj = []
+            if ok:
+                disj = g.test.values if isinstance(g.test, ast.BoolOp) and isinstance(g.test.op, ast.Or) else [g.test]
+                ok = all(any(isinstance(nm, ast.Name) and nm.id == dsv for nm in ast.walk(d)) for d in disj)
+            rep.check(ok, "data-flow", fq, s, f"the handler's data set `{dsv}` is replaced under `{norm(g.test) if g is not None else 'no condition'}`: a condition that does not depend on what the handler supplied discards a valid Identifier (e.g. its own Failed SOP Instance UID List) - the requestor receives a different data set than the handler returned", mod=sc, node=s)
+    rep.floor("handler data-set replacement sites (C-GET / C-MOVE)", n, 2)
